@@ -162,9 +162,10 @@ class ProducerWorld(ClientWorld):
         p = req.parsed
         if p is None:
             return
-        if req.grammar_error and self.PROP == "C04":
-            self.viol("wire-grammar", "neg:request-does-not-parse:%s" % rk.API_NAMES.get(p["api_key"], p["api_key"]),
-                      "request rejected by the reference parser: %s" % req.grammar_error)
+        if self.PROP == "C08":
+            self.c08_frame(req)
+        if self.PROP == "C04":
+            self.c04_frame(req)
         if p["api_key"] == rk.PRODUCE and p["body"] is not None:
             content = {}
             for t in p["body"]["topics"]:
@@ -191,6 +192,8 @@ class ProducerWorld(ClientWorld):
         return out
 
     def on_event(self, label):
+        if self.PROP == "C08":
+            self.c08_event()
         # collect the producer's own retry timers from the clock journal
         j = self.clock.journal
         while self._clock_seen < len(j):
@@ -214,7 +217,7 @@ class ProducerWorld(ClientWorld):
     def judge_send(self, s):
         from afkak.common import ProduceResponse
         from twisted.python.failure import Failure
-        if self.PROP != "C01":
+        if self.PROP not in ("C01", "C08"):
             return
         res = s.result
         if isinstance(res, Failure):
@@ -406,6 +409,13 @@ class ProducerWorld(ClientWorld):
 
     # ------------------------------------------------------------------ explorer protocol
     def finish(self, horizon):
+        if self.PROP == "C04" and not self.reacted:
+            from twisted.python.failure import Failure
+            for s in self.sends:
+                if s.fired and isinstance(s.result, Failure):
+                    self.viol("negotiation", "neg:send-fails-against-correct-broker:%s" % s.result.type.__name__,
+                              "send %d failed with %r although the broker answered every request correctly (reply "
+                              "decoded with the wrong layout?)" % (s.i, s.result.value))
         for s in self.sends:
             if s.d is not None and not s.fired and (s.call_steps or self.stop_called_step is not None or
                                                     not self.cfg.get("producer", {}).get("batch_send")):
